@@ -599,4 +599,44 @@ def termKex (K : Type) (k : K) (ok : Bool) : IdealKex K Unit where
   encKey := k
   premaster_secret := fun _ _ => rfl
 
+/-! ### the entropy source -/
+
+/-- whatever the reader's schedule — short reads, zero-length reads — `io.ReadFull` returns the
+next `want` bytes of its stream, all of them, or fails -/
+theorem readFull_take (sched : List Nat) : ∀ (stream : List Nat) (want : Nat) bs s' sc',
+    readFull sched stream want = some (bs, s', sc') →
+      bs = stream.take want ∧ s' = stream.drop want ∧ bs.length = want := by
+  induction sched with
+  | nil =>
+    intro stream want bs s' sc' h
+    cases want with
+    | zero => simp [readFull] at h; obtain ⟨rfl, rfl, _⟩ := h; simp
+    | succ w => simp [readFull] at h
+  | cons k rest ih =>
+    intro stream want bs s' sc' h
+    cases want with
+    | zero => simp [readFull] at h; obtain ⟨rfl, rfl, _⟩ := h; simp
+    | succ w =>
+      simp only [readFull] at h
+      split at h
+      · cases h
+      · rename_i hlen
+        split at h
+        · cases h
+        · rename_i bs0 s0 sc0 hrec
+          simp only [Option.some.injEq, Prod.mk.injEq] at h
+          obtain ⟨rfl, rfl, rfl⟩ := h
+          obtain ⟨hb, hs, hl⟩ := ih _ _ _ _ _ hrec
+          have hn : min k (w + 1) ≤ w + 1 := Nat.min_le_right _ _
+          have hlen' : min k (w + 1) ≤ stream.length := Nat.le_of_not_lt hlen
+          refine ⟨?_, ?_, ?_⟩
+          · rw [hb, List.take_drop]
+            have : min k (w + 1) + (w + 1 - min k (w + 1)) = w + 1 := by omega
+            rw [this]
+            conv => rhs; rw [← List.take_append_drop (min k (w + 1)) (stream.take (w + 1))]
+            rw [List.take_take, Nat.min_eq_left hn, List.drop_take]
+          · rw [hs, List.drop_drop]
+            congr 1; omega
+          · rw [List.length_append, hl, List.length_take, Nat.min_eq_left hlen']; omega
+
 end Gotlcp.Lemmas.ClientAuthn
